@@ -365,7 +365,10 @@ def trades_of(calls):
     return t[0]["trades"] if (t and f) else []
 
 
-def oracle_c04(sc, steps):
+LIQ_FAIL_DEBIT_OPEN = any(o["flag"] == "q_liq_fail_debit" for o in known_findings()[0])
+
+
+def oracle_c04(sc, steps, include_known=False):
     for k, st in enumerate(steps):
         if st["panic"]:
             break
@@ -386,6 +389,11 @@ def oracle_c04(sc, steps):
                 want = want - F(t["value"]) if t["side"] == "Buy" else F(t["value"]) + want
         else:
             want = pre
+            if o == "liq" and LIQ_FAIL_DEBIT_OPEN and not include_known and res["ev"] == "WithdrawFailure" and F(op["x"]) <= pre \
+                    and post == pre - F(op["x"]):
+                # exactly the recorded open finding q_liq_fail_debit (known_findings.txt): reported as KNOWN-FINDING by
+                # the check, not as the failing input of some other deviation
+                continue
         if not (post == want or (math.isnan(post) and math.isnan(want))):
             return dict(step=k, op=o, what="cash moved from %r to %r; the ledger demands %r" % (pre, post, want),
                         event=res if isinstance(res, dict) and "ev" in res else None, request=show_f(op["x"]) if "x" in op else None)
